@@ -1,7 +1,9 @@
 mod asm;
 mod gen_asm;
 mod gen_isa;
+mod gen_run;
 mod prog;
+mod session;
 mod util;
 
 fn main() {
@@ -17,6 +19,7 @@ fn main() {
         ("replay", "isa") => gen_isa::replay(&args),
         ("gen", "asm") => gen_asm::main(&args),
         ("replay", "asm") => gen_asm::replay(&args),
+        ("gen", "run") => gen_run::main(&args),
         (a, b) => {
             eprintln!("unknown command {a} {b}");
             std::process::exit(2);
